@@ -16,14 +16,16 @@ type C06Case struct {
 	Patches []string `json:"patches"` // one or more patch files (given with repeated -p)
 	FileID  string   `json:"file_id"`
 	File    string   `json:"file"`
-	Flags   []string `json:"flags"` // subset of --diff --print-only --skip-import-processing --skip-generated -v ; or ["API"]
+	Flags   []string `json:"flags"`
+	File2ID string   `json:"file2_id,omitempty"` // a second target (b.go) in the same run
+	File2   string   `json:"file2,omitempty"` // subset of --diff --print-only --skip-import-processing --skip-generated -v ; or ["API"]
 }
 
 func init() {
 	core.Register(&core.Property{
 		ID:    "C06",
 		Level: "model_checking",
-		Rule: "universe = non-matching (patch, file) pairs: patches of every pattern kind incl. near-misses, failing and holding package/import guards with a non-matching body, multi-change and multi-file patches x files = 4 base sources x 13 layout variants (gofmt-ed, not gofmt-ed, CRLF, no final newline, BOM, trailing whitespace, mixed indentation, odd comments, build tags, unsorted/duplicated/grouped imports) x all 24 combinations of {default,--diff,--print-only} x --skip-import-processing x --skip-generated x -v, plus the library API. " +
+		Rule: "universe = non-matching (patch, file) pairs: patches of every pattern kind incl. near-misses, failing and holding package/import guards with a non-matching body, multi-change and multi-file patches x files = 4 base sources x 13 layout variants (gofmt-ed, not gofmt-ed, CRLF, no final newline, BOM, trailing whitespace, mixed indentation, odd comments, build tags, unsorted/duplicated/grouped imports) x all 24 combinations of {default,--diff,--print-only} x --skip-import-processing x --skip-generated x -v, plus the library API; near-misses in which the FILE has a position-encoded token the pattern lacks (variadic, alias, grouped declaration) and for-headers with init/post around the elision; two targets in one run (5 x 3 layouts x 4 patches x 26 flag sets). " +
 			"oracle needs no model: snapshot (bytes, inode, mtime, mode, no new entries), exact stdout/stderr, exit 0, Apply returns the input bytes. non-trivial = file is not in canonical gofmt form or a guard of the patch holds",
 		Assumptions: []string{"the generator's claim that nothing matches is cross-checked: the output of an applied change would contain the marker identifier `mark`, which no input contains"},
 		Bounds:      func(tier string) map[string]any { return map[string]any{"patches": len(c06Patches()), "files": len(c06Files())} },
@@ -62,6 +64,12 @@ func c06Patches() []c06Patch {
 		g("package-rename", "@@\n@@\n-package a\n+package mark\n\n-nomatch()\n+mark()\n"),
 		one("package-guard-fails", "@@\nvar x expression\n@@\n package other\n-fmt.Println(x)\n+mark(x)\n"),
 		one("import-guard-fails", "@@\nvar x expression\n@@\n import \"nomatch/pkg\"\n-fmt.Println(x)\n+mark(x)\n"),
+		// the file has a position-encoded token that the pattern lacks
+		one("nearmiss-file-variadic", "@@\nvar x expression\n@@\n-spread(x)\n+mark(x)\n"),
+		one("nearmiss-file-alias", "@@\n@@\n-type Alias2 S\n+type mark S\n"),
+		one("nearmiss-file-grouped", "@@\n@@\n-var G = 1\n+var mark = 1\n"),
+		one("nearmiss-for-header", "@@\nvar x identifier\n@@\n for i := 0; ...; i++ {\n-  _ = x\n+  mark(x)\n }\n"),
+		one("nearmiss-for-header-init", "@@\nvar x identifier\n@@\n for i := 0; ...; {\n-  _ = x\n+  mark(x)\n }\n"),
 		one("two-changes", "@@\n@@\n-nomatch1()\n+mark()\n\n# second\n@ second @\nvar x expression\n@@\n-nomatch2(x)\n+mark(x)\n"),
 		{id: "two-patch-files", files: []string{"@@\n@@\n-nomatch1()\n+mark()\n", "@@\nvar n identifier\n@@\n import n \"fmt\"\n-n.Nomatch(1)\n+n.mark(1)\n"}, guard: true},
 	}
@@ -80,7 +88,7 @@ func c06Files() []c06File {
 		{"no-imports", "", ""},
 	}
 	body := func(pkgfmt string) string {
-		return "// S is a struct.\ntype S struct {\n\tA int `json:\"a\"`\n}\n\ntype Alias S\n\nconst C = 1\n\n// F does things.\nfunc F(a int, b string) (int, error) {\n\tx := a + 1 // trailing\n\tif x > 2 {\n\t\t" + pkgfmt + "Println(x, b)\n\t}\n\ts := append([]int{}, x)\n\t_ = s\n\treturn x, nil\n}\n"
+		return "// S is a struct.\ntype S struct {\n\tA int `json:\"a\"`\n}\n\ntype Alias S\n\nconst C = 1\n\n// F does things.\nfunc F(a int, b string) (int, error) {\n\tx := a + 1 // trailing\n\tif x > 2 {\n\t\t" + pkgfmt + "Println(x, b)\n\t}\n\ts := append([]int{}, x)\n\t_ = s\n\tspread(s...)\n\tfor range s {\n\t\t_ = x\n\t}\n\treturn x, nil\n}\n\ntype Alias2 = S\n\nvar (\n\tG = 1\n)\n"
 	}
 	var out []c06File
 	for _, b := range bases {
@@ -150,6 +158,27 @@ func c06FlagSets() [][]string {
 }
 
 func c06Gen(tier string, emit func(any)) {
+	// two targets in one run: what is echoed / left alone for one must not depend on the other
+	files := c06Files()
+	pick := func(id string) c06File {
+		for _, f := range files {
+			if f.id == id {
+				return f
+			}
+		}
+		panic("harness: no file layout " + id)
+	}
+	firsts := []string{"unnamed-imports/no-final-newline", "unnamed-imports/crlf", "no-imports/bom", "single-import/gofmt", "no-imports/no-final-newline"}
+	seconds := []string{"no-imports/gofmt", "unnamed-imports/no-final-newline", "named-imports/not-gofmt"}
+	for _, p := range c06Patches()[:4] {
+		for _, a := range firsts {
+			for _, b := range seconds {
+				for _, fs := range c06FlagSets() {
+					emit(&C06Case{PatchID: p.id, Patches: p.files, FileID: a, File: pick(a).src, File2ID: b, File2: pick(b).src, Flags: fs})
+				}
+			}
+		}
+	}
 	for _, p := range c06Patches() {
 		for _, f := range c06Files() {
 			emit(&C06Case{PatchID: p.id, Patches: p.files, FileID: f.id, File: f.src, Flags: []string{"API"}})
@@ -194,6 +223,9 @@ func c06Run(env *core.Env, ci any) core.Outcome {
 	}
 	judge := func(real bool) core.Outcome {
 		tree := map[string]string{"t/a.go": c.File}
+		if c.File2ID != "" {
+			tree["t/b.go"] = c.File2
+		}
 		for i, p := range c.Patches {
 			tree[fmt.Sprintf("p%d.patch", i)] = p
 		}
@@ -234,6 +266,20 @@ func c06Run(env *core.Env, ci any) core.Outcome {
 			var ok bool
 			if rest, ok = cutLogLine(rest, sb.path("t/a.go")); !ok {
 				return bad("stdout", "-v: expected one log line about the file, got %q", rest)
+			}
+		}
+		if c.File2ID != "" {
+			if contains(c.Flags, "--print-only") {
+				if !strings.HasPrefix(rest, c.File2) {
+					return bad("stdout", "--print-only did not echo the original bytes of the second file right after the first:\n got %q\nwant %q", rest, c.File2)
+				}
+				rest = rest[len(c.File2):]
+			}
+			if contains(c.Flags, "-v") {
+				var ok bool
+				if rest, ok = cutLogLine(rest, sb.path("t/b.go")); !ok {
+					return bad("stdout", "-v: expected one log line about the second file, got %q", rest)
+				}
 			}
 		}
 		if rest != "" {
